@@ -188,3 +188,102 @@ class FakeThreading:
 class FakeSignal:
     SIGINT = 2
     def signal(self, *a): pass
+
+
+# --------------------------------------------------------------------------- two-thread schedules (baton passing)
+import threading as _threading
+
+
+class SchedAbort(BaseException):
+    pass
+
+
+class Sched:
+    """Runs two callables in two real threads of which exactly one is runnable at any time.
+    At every preemption point (lock acquire/release, instrumented attribute access) the choice
+    "switch to the other thread?" is a symbolic boolean of the harness context: explored by forking
+    in sym mode, replayed from the counterexample in conc mode. Preemption bound = `bound`."""
+
+    def __init__(self, ctx, bound=3):
+        self.ctx = ctx; self.bound = bound; self.active = False
+        self.sem = [_threading.Semaphore(0), _threading.Semaphore(0)]; self.main = _threading.Semaphore(0)
+        self.done = [False, False]; self.cur = None; self.preempt = 0; self.exc = None; self.npoints = 0
+        self.trace = []
+
+    def _me(self):
+        return getattr(_threading.current_thread(), '_sched_idx', None)
+
+    def _switch(self, me):
+        other = 1 - me
+        self.cur = other
+        self.sem[other].release()
+        self.sem[me].acquire()
+        if self.exc is not None: raise SchedAbort()
+
+    def point(self, tag):
+        if not self.active: return
+        me = self._me()
+        if me is None or self.exc is not None: return
+        self.npoints += 1
+        other = 1 - me
+        if self.done[other] or self.preempt >= self.bound: return
+        b = self.ctx.bool('sched#%d' % self.npoints)
+        if b:
+            self.preempt += 1; self.trace.append((me, tag))
+            self._switch(me)
+
+    def block(self, me):
+        """current thread cannot proceed (lock held by the other): forced switch, not a preemption"""
+        other = 1 - me
+        if self.done[other]: raise core.HarnessError('deadlock in scheduled section')
+        self._switch(me)
+
+    def run(self, f0, f1):
+        import sys
+        def body(i, f):
+            self.sem[i].acquire()
+            try:
+                if self.exc is None: f()
+            except SchedAbort:
+                pass
+            except BaseException as e:
+                if self.exc is None: self.exc = e
+            finally:
+                self.done[i] = True
+                o = 1 - i
+                if not self.done[o]:
+                    self.cur = o; self.sem[o].release()
+                else:
+                    self.main.release()
+        ts = []
+        for i, f in enumerate((f0, f1)):
+            t = _threading.Thread(target=body, args=(i, f)); t._sched_idx = i; t.daemon = True; ts.append(t)
+        self.active = True
+        for t in ts: t.start()
+        first = 1 if self.ctx.bool('sched#first') else 0
+        self.cur = first
+        self.sem[first].release()
+        self.main.acquire()
+        for t in ts: t.join()
+        self.active = False
+        if self.exc is not None:
+            e = self.exc; self.exc = None
+            raise e
+
+
+class SchedLock:
+    def __init__(self, sched): self.s = sched; self.held = None; self.log = []
+    def acquire(self, *a):
+        s = self.s
+        s.point('acquire')
+        me = s._me()
+        while self.held is not None and self.held != me:
+            s.block(me)
+        self.held = me if me is not None else -1
+        return True
+    def release(self):
+        self.held = None
+        self.s.point('release')
+    def __enter__(self): self.acquire(); return self
+    def __exit__(self, *a): self.release(); return False
+    def locked(self): return self.held is not None
